@@ -16,6 +16,10 @@ Require Import V.Model.RingThreads.
 Require Import V.Proofs.RingConc.
 Require Import V.Proofs.RingConcThm.
 Require Import V.Proofs.RingLog.
+Require Import V.Proofs.RingRefusal.
+Require Import V.Proofs.RingTrace.
+Require Import V.Proofs.RingClaims.
+Require Import V.Proofs.C06ConcOracle.
 Open Scope Z_scope.
 
 (* ---------------------------------------------------------------------------------------------
@@ -247,6 +251,145 @@ Proof. split; [| split; [| split; [| repeat split; vm_compute; reflexivity]]].
     + repeat (constructor; try (right; reflexivity)).
   - assert (E : replay_ok 40 Debug ex_k0 ex_sched = Some ex_k) by (vm_compute; reflexivity).
     exact (replay_reach _ _ _ _ _ _ E (reach_refl _ _ _)). Qed.
+
+(* "A write is refused for lack of space only when ..." for interleavings.  In every reachable configuration, a
+   granted step of a producer that makes its write call return InsufficientCapacity is the re-read of the head
+   position after the first capacity check failed on the cached head (PReadHead1), or after the wrap check failed on
+   the head held (PReadHead2); the refusal is decided on the head value just read (= the head position now) and the
+   tail value tl the caller read at the start of its loop iteration (lo <= tl <= tail now):
+     first check: (tl - head) + record > capacity, hence (tail - head) + record > capacity at this very moment;
+     wrap check:  the record does not fit behind tl and record > head mod capacity;
+   and whenever nobody moved the tail since the caller read it (tail = tl) this is the specification's only reason,
+   `no_room`: (tail - head) + record + wrap padding > capacity.  When the caller was overtaken between its two reads the
+   wrap check mixes a stale tail with a fresh head and can refuse although the ring has room: C06_conc_refusal_overtaken
+   is a reachable configuration in which a 32-byte record is refused by an empty 256-byte ring (confirmed on the
+   implementation: harness line in docs/reports/C06.md). *)
+Theorem C06_conc_refusal : forall lo m cfg i ps R' ps' e,
+  Inv lo cfg -> nth_error (g_prods cfg) i = Some ps ->
+  pstep m (g_ring cfg) (Z.of_nat (S i)) ps = (R', ps', Some e) ->
+  refused_now ps ps' ->
+  let R := g_ring cfg in
+  let cp := r_cap R in
+  exists typ body tl,
+    at_write cp ps typ body /\ R' = R /\
+    e = ev (Z.of_nat (S i)) GetVolatile (cp + HEAD_OFF) 8 0 0 (r_head R) /\
+    lo <= tl <= r_tail R /\
+    let n := Z.of_nat (length body) in
+    ((p_pc ps = PReadHead1 tl /\ (tl - r_head R) + rec_bytes n > cp /\ (r_tail R - r_head R) + rec_bytes n > cp) \/
+     (p_pc ps = PReadHead2 tl /\ rec_bytes n > cp - tl mod cp /\ rec_bytes n > r_head R mod cp)) /\
+    (r_tail R = tl -> no_room cp (r_head R) (r_tail R) n = true).
+Proof. exact conc_refusal. Qed.
+Print Assumptions C06_conc_refusal.
+
+Example C06_conc_refusal_overtaken :
+  reach 8 Debug sp_c0 sp_c /\
+  map p_pc (g_prods sp_c) = [PReadHead2 232; PDone] /\ r_head (g_ring sp_c) = 256 /\ r_tail (g_ring sp_c) = 256 /\
+  r_slots (g_ring sp_c) = [] /\
+  (exists c' e, step Debug sp_c 1 = Some (c', e) /\
+     map p_res (g_prods c') = [[Err InsufficientCapacity]; [Ok 0; Ok 0; Ok 0]] /\
+     no_room 256 (r_head (g_ring sp_c)) (r_tail (g_ring sp_c)) 24 = false).
+Proof. exact spurious_refusal. Qed.
+
+(* ---- the known class refusal-on-stale-tail (KNOWN_FINDINGS.txt) ----
+   The property text: "a write is refused for lack of space only when the unconsumed bytes plus the record (and wrap padding)
+   really exceed the capacity".  A refusing step is in the known class when it is the head re-read of the wrap check and the
+   tail counter has moved since the caller read it (the caller was overtaken).  Outside the class every refusal is justified
+   at the very instant it is decided: `no_room` holds of the real head and tail positions. *)
+Definition KnownClass_refusal_on_stale_tail (R : ring) (ps : pstate) : Prop :=
+  exists tl, p_pc ps = PReadHead2 tl /\ r_tail R <> tl.
+
+Theorem C06_conc_refusal_justified : forall lo m cfg i ps R' ps' e,
+  Inv lo cfg -> nth_error (g_prods cfg) i = Some ps ->
+  pstep m (g_ring cfg) (Z.of_nat (S i)) ps = (R', ps', Some e) ->
+  refused_now ps ps' ->
+  ~ KnownClass_refusal_on_stale_tail (g_ring cfg) ps ->
+  exists typ body, at_write (r_cap (g_ring cfg)) ps typ body /\
+    no_room (r_cap (g_ring cfg)) (r_head (g_ring cfg)) (r_tail (g_ring cfg)) (Z.of_nat (length body)) = true.
+Proof. intros lo m cfg i ps R' ps' e HI Hi Hs Href Hk.
+  destruct (conc_refusal lo m cfg i ps R' ps' e HI Hi Hs Href) as (typ & body & tl & Aw & _ & _ & Htl & Hcase & Hsame).
+  exists typ, body. split; [exact Aw |]. cbn zeta in *.
+  destruct Hcase as [(Epc & _ & Hreal) | (Epc & _)].
+  - unfold no_room. pose proof (wrap_pad_bounds (r_cap (g_ring cfg)) (r_tail (g_ring cfg)) (Z.of_nat (length body)) (i_cap _ _ HI)). lia.
+  - destruct (Z.eq_dec (r_tail (g_ring cfg)) tl) as [E | N]; [exact (Hsame E) |].
+    exfalso. apply Hk. exists tl. split; assumption. Qed.
+Print Assumptions C06_conc_refusal_justified.
+
+(* the class is inhabited and the property's predicate fails on it: the run of corpus/C06/overtaken-refusal.json.  At the
+   refusing step the producer is in the class, the ring is empty (no_room false); on the whole run the core of the oracle
+   holds, the refusal clause fails, and the decidable form of the class (what the check evaluates on the implementation's
+   observation) is true *)
+Definition kn_progs : list (list wreq) := [[(1, payload 0 24)]; [(2, payload 1 0); (3, payload 2 0); (4, payload 3 0)]].
+Definition kn_post : list op := [OpRead 2147483647; OpRead 2147483647; OpDump].
+Definition kn_obs := run_conc Debug (init 256 232 8 0) [] [2147483647] kn_progs (unrle [(1, 2); (2, 400); (0, 400); (1, 400)]) [-1; -1; -1] kn_post.
+Theorem C06_refusal_on_stale_tail_witness :
+  (exists ps, nth_error (g_prods sp_c) 0 = Some ps /\ KnownClass_refusal_on_stale_tail (g_ring sp_c) ps /\
+     reach 8 Debug sp_c0 sp_c /\
+     exists c' e, step Debug sp_c 1 = Some (c', e) /\ map p_res (g_prods c') = [[Err InsufficientCapacity]; [Ok 0; Ok 0; Ok 0]] /\
+       no_room 256 (r_head (g_ring sp_c)) (r_tail (g_ring sp_c)) 24 = false) /\
+  KnownClass_refusal_on_stale_tail_obs 256 232 [] kn_progs kn_post kn_obs = true /\
+  holds_conc_core 256 232 [] kn_progs kn_post kn_obs = true /\
+  holds_conc 256 232 [] kn_progs kn_post kn_obs = false.
+Proof. split; [| repeat split; vm_compute; reflexivity].
+  destruct spurious_refusal as (Hr & Hpc & Hh & Ht & _ & Hstep).
+  eexists. split; [vm_compute; reflexivity |]. split; [exists 232; split; [vm_compute; reflexivity | rewrite Ht; discriminate] |].
+  split; [exact Hr | exact Hstep]. Qed.
+Print Assumptions C06_refusal_on_stale_tail_witness.
+
+(* the trace oracle of the concurrent cases: holds_conc = holds_conc_core && refusals_ok.  The core - positions, claims,
+   deliveries - is true of every run of the thread model (the refusal clause: C06_conc_refusal_justified below).  `run_conc` = sequential
+   prelude, threads under a schedule (replayed exactly as the harness's scheduler does), sequential epilogue;
+   `conc_domain`: the prelude is in the sequential domain, the programs are well-formed and every write of the case
+   has its own type id, the epilogue consists of reads and dumps (at least one read), positions stay below 2^62.
+   Hypotheses on the run itself: every thread ran to completion (no crash point, schedule + drain long enough) and the
+   epilogue drained the ring.  Then positions_ok holds along the whole trace, every claim read off the trace is
+   committed, there are as many claims as successful write calls, and what the consumer and the epilogue delivered is
+   exactly the prelude's pending commands followed by the committed commands in position order. *)
+Theorem C06_oracle_conc : forall m cp p0 hc0 c0 pre limits progs sched stops post,
+  conc_domain cp p0 hc0 c0 pre progs post ->
+  let obs := run_conc m (init cp p0 hc0 c0) pre limits progs sched stops post in
+  forallb finished (snd (fst obs)) = true ->
+  (let '(h3, t3) := last_ht p0 (fst (fst (fst obs)) ++ snd obs) in h3 = t3) ->
+  holds_conc_core cp p0 pre progs post obs = true.
+Proof. exact oracle_conc_model. Qed.
+Print Assumptions C06_oracle_conc.
+
+(* the two ingredients that hold for every run, crash points or not: the positions along the trace, and the claims
+   read off the trace against the ghost log *)
+Theorem C06_conc_positions : forall lo m c tr c', Inv lo c -> steps lo m c tr c' ->
+  positions_ok (r_cap (g_ring c)) tr (r_head (g_ring c)) (r_tail (g_ring c)) = true /\
+  C07Oracle.trace_ht (r_cap (g_ring c)) tr (r_head (g_ring c)) (r_tail (g_ring c)) = (r_head (g_ring c'), r_tail (g_ring c')) /\
+  r_cap (g_ring c') = r_cap (g_ring c).
+Proof. exact steps_positions. Qed.
+Print Assumptions C06_conc_positions.
+
+Theorem C06_conc_claims : forall lo m c tr c' acc, Inv lo c -> LogInv c -> steps lo m c tr c' -> ClInv c acc ->
+  ClInv c' (claims_rev (r_cap (g_ring c)) tr acc) /\ LogInv c' /\ Inv lo c'.
+Proof. exact steps_claims. Qed.
+Print Assumptions C06_conc_claims.
+
+(* non-vacuity of C06_oracle_conc: two producers and a consumer on a 64-byte ring started at position 40 with one
+   command left by the prelude; the run finishes, the epilogue drains, the oracle is true *)
+Definition exo_pre : list op := [OpWrite 14 (payload 99 8)].
+Definition exo_progs : list (list wreq) := [[(1, payload 0 8); (3, payload 2 0)]; [(2, payload 1 3)]].
+Definition exo_post : list op := [OpRead 2147483647; OpRead 2147483647; OpDump].
+Definition exo_obs := run_conc Debug (init 64 40 40 0) exo_pre [2; 2147483647] exo_progs
+                        (unrle [(1, 3); (2, 7); (0, 4); (1, 5); (2, 400); (0, 400); (1, 400)]) [-1; -1; -1] exo_post.
+Example C06_oracle_conc_example :
+  conc_domain 64 40 40 0 exo_pre exo_progs exo_post /\
+  forallb finished (snd (fst exo_obs)) = true /\
+  (let '(h3, t3) := last_ht 40 (fst (fst (fst exo_obs)) ++ snd exo_obs) in h3 = t3) /\
+  holds_conc_core 64 40 exo_pre exo_progs exo_post exo_obs = true /\
+  holds_conc 64 40 exo_pre exo_progs exo_post exo_obs = true.
+Proof. split; [| split; [| split; [| split]]]; try (vm_compute; reflexivity).
+  unfold conc_domain. split; [| split; [| split; [| split; [| split]]]].
+  - unfold seq_domain. split; [exists 6; split; [lia | reflexivity] |].
+    repeat split; try (vm_compute; congruence); try reflexivity. constructor; [right; reflexivity | constructor].
+  - repeat (constructor; try (right; reflexivity)).
+  - vm_compute. repeat constructor; cbn; intuition discriminate.
+  - repeat constructor.
+  - reflexivity.
+  - vm_compute. discriminate.
+Qed.
 
 (* the arithmetic before fixes/C06-claim-capacity-i64.diff: with a head cache stale by 2^32 - 8 bytes and a
    completely full 16-byte ring (tail - head = 16) the truncated difference is 8, so 8 bytes look available;
